@@ -52,11 +52,17 @@ func genC18(t *rapid.T) C18Case {
 		case "full":
 			s.A = rapid.SampledFrom([]float64{0, 1, -2.5, 1e-3, 7}).Draw(t, "value")
 		case "uniform", "randu":
-			s.A = rapid.SampledFrom([]float64{-1, 0, -0.05, 2, -100, 0.5}).Draw(t, "lower")
+			s.A = rapid.SampledFrom([]float64{-1, 0, -0.05, 2, -100, 0.5, 1e200, -1e-200}).Draw(t, "lower")
 			s.B = s.A + rapid.SampledFrom([]float64{0.1, 1, 2, 50, 1e-3}).Draw(t, "width")
+			if s.A == 1e200 {
+				s.B = 3e200
+			}
 		case "normal", "randn":
 			s.A = rapid.SampledFrom([]float64{0, 1, -3, 100}).Draw(t, "mean")
-			s.B = rapid.SampledFrom([]float64{0.05, 1, 2, 0.001, 10}).Draw(t, "sigma")
+			s.B = rapid.SampledFrom([]float64{0.05, 1, 2, 0.001, 10, 1e-170, 1e160}).Draw(t, "sigma")
+			if s.B < 1e-100 || s.B > 1e100 {
+				s.A = 0 // a mean many orders of magnitude above sigma would absorb the draws in float64
+			}
 		default:
 			s.FanIn = rapid.IntRange(1, 64).Draw(t, "fanin")
 			s.FanOut = rapid.IntRange(1, 64).Draw(t, "fanout")
@@ -101,31 +107,55 @@ func genC18(t *rapid.T) C18Case {
 	return c
 }
 
+// build constructs the initializer; afterwards the caller's config struct is overwritten
+// (a loop that re-fills one config variable for the next layer): the initializer already
+// constructed keeps the parameters it was given.
 func (s InitSpec) build() (layers.Initializer, error) {
 	switch s.Kind {
 	case "full":
 		if s.NilConf {
 			return initializers.NewFull(nil), nil
 		}
-		return initializers.NewFull(&initializers.FullConfig{Value: s.A}), nil
+		c := &initializers.FullConfig{Value: s.A}
+		in := initializers.NewFull(c)
+		c.Value = 12345
+		return in, nil
 	case "uniform":
 		if s.NilConf {
 			return initializers.NewUniform(nil)
 		}
-		return initializers.NewUniform(&initializers.UniformConfig{Lower: s.A, Upper: s.B})
+		c := &initializers.UniformConfig{Lower: s.A, Upper: s.B}
+		in, err := initializers.NewUniform(c)
+		c.Lower, c.Upper = 1000, 2000
+		return in, err
 	case "normal":
 		if s.NilConf {
 			return initializers.NewNormal(nil)
 		}
-		return initializers.NewNormal(&initializers.NormalConfig{Mean: s.A, StdDev: s.B})
+		c := &initializers.NormalConfig{Mean: s.A, StdDev: s.B}
+		in, err := initializers.NewNormal(c)
+		c.Mean, c.StdDev = 1000, 500
+		return in, err
 	case "heuniform":
-		return initializers.NewHeUniform(&initializers.HeUniformConfig{FanIn: s.FanIn})
+		c := &initializers.HeUniformConfig{FanIn: s.FanIn}
+		in, err := initializers.NewHeUniform(c)
+		c.FanIn = 100000
+		return in, err
 	case "henormal":
-		return initializers.NewHeNormal(&initializers.HeNormalConfig{FanIn: s.FanIn})
+		c := &initializers.HeNormalConfig{FanIn: s.FanIn}
+		in, err := initializers.NewHeNormal(c)
+		c.FanIn = 100000
+		return in, err
 	case "xavieruniform":
-		return initializers.NewXavierUniform(&initializers.XavierUniformConfig{FanIn: s.FanIn, FanOut: s.FanOut})
+		c := &initializers.XavierUniformConfig{FanIn: s.FanIn, FanOut: s.FanOut}
+		in, err := initializers.NewXavierUniform(c)
+		c.FanIn, c.FanOut = 100000, 100000
+		return in, err
 	case "xaviernormal":
-		return initializers.NewXavierNormal(&initializers.XavierNormalConfig{FanIn: s.FanIn, FanOut: s.FanOut})
+		c := &initializers.XavierNormalConfig{FanIn: s.FanIn, FanOut: s.FanOut}
+		in, err := initializers.NewXavierNormal(c)
+		c.FanIn, c.FanOut = 100000, 100000
+		return in, err
 	}
 	return nil, fmt.Errorf("no initializer for %s", s.Kind)
 }
@@ -257,11 +287,19 @@ func checkC18(c C18Case) *Failure {
 			evid.Class("C18.kind=full")
 			continue
 		}
+		// everything below works on standardised draws: (v-lo)/(hi-lo) against U(0,1), or
+		// (v-mu)/sigma against N(0,1), so that extreme but valid parameters cannot overflow
+		std := func(v float64) float64 {
+			if uniform {
+				return (v - lo) / (hi - lo)
+			}
+			return (v - mu) / sigma
+		}
 		var pool []float64
 		for ci, cv := range calls[k] {
 			for _, v := range cv {
 				if math.IsNaN(v) || math.IsInf(v, 0) {
-					return failf("%s produced %v", s.Kind, v)
+					return failf("%s %+v produced %v", s.Kind, s, v)
 				}
 				if uniform && !(v >= lo && v < hi) {
 					return failf("%s produced %v outside [%v, %v)", s.Kind, v, lo, hi)
@@ -279,7 +317,9 @@ func checkC18(c C18Case) *Failure {
 					return failf("%s: two consecutive calls with shape %v returned identical values (draws are not fresh)", s.Kind, s.Shape)
 				}
 			}
-			pool = append(pool, cv...)
+			for _, v := range cv {
+				pool = append(pool, std(v))
+			}
 		}
 		evid.Class("C18.kind=" + s.Kind)
 		n := float64(len(pool))
@@ -287,11 +327,9 @@ func checkC18(c C18Case) *Failure {
 			continue
 		}
 		pooledAny = true
-		var m, sd float64
+		m, sd := 0.0, 1.0
 		if uniform {
-			m, sd = (lo+hi)/2, (hi-lo)/math.Sqrt(12)
-		} else {
-			m, sd = mu, sigma
+			m, sd = 0.5, 1/math.Sqrt(12)
 		}
 		mean := 0.0
 		for _, v := range pool {
@@ -299,7 +337,7 @@ func checkC18(c C18Case) *Failure {
 		}
 		mean /= n
 		if z := (mean - m) / (sd / math.Sqrt(n)); math.Abs(z) > c18Z {
-			return failf("%s %+v: mean of %d draws = %v, expected %v (z = %.1f)", s.Kind, s, len(pool), mean, m, z)
+			return failf("%s %+v: standardised mean of %d draws = %v, expected %v (z = %.1f)", s.Kind, s, len(pool), mean, m, z)
 		}
 		s2 := 0.0
 		for _, v := range pool {
@@ -312,17 +350,15 @@ func checkC18(c C18Case) *Failure {
 			k4 = 0.8
 		}
 		if z := (s2 - sd*sd) / (sd * sd * math.Sqrt(k4/n)); math.Abs(z) > c18Z {
-			return failf("%s %+v: standard deviation of %d draws = %v, expected %v (z = %.1f)", s.Kind, s, len(pool), math.Sqrt(s2), sd, z)
+			return failf("%s %+v: standard deviation of %d draws is %.4f times the prescribed one (z = %.1f)", s.Kind, s, len(pool), math.Sqrt(s2)/sd, z)
 		}
 		sorted := append([]float64{}, pool...)
 		sort.Float64s(sorted)
 		d := 0.0
 		for i, v := range sorted {
-			var cdf float64
-			if uniform {
-				cdf = (v - lo) / (hi - lo)
-			} else {
-				cdf = 0.5 * math.Erfc(-(v-mu)/(sigma*math.Sqrt2))
+			cdf := v
+			if !uniform {
+				cdf = 0.5 * math.Erfc(-v/math.Sqrt2)
 			}
 			d = math.Max(d, math.Max(math.Abs(cdf-float64(i)/n), math.Abs(float64(i+1)/n-cdf)))
 		}
@@ -338,7 +374,7 @@ func checkC18(c C18Case) *Failure {
 			var pm []float64
 			for j := range calls[k][0] {
 				for ci := range calls[k] {
-					pm = append(pm, calls[k][ci][j])
+					pm = append(pm, std(calls[k][ci][j]))
 				}
 			}
 			if r := lag1(pm, mean, s2); math.Abs(r) > c18Z/math.Sqrt(n) {
